@@ -210,6 +210,10 @@ func handleSINTERCARD(params internal.HandlerFuncParams) ([]byte, error) {
 		if limitIdx >= len(params.Command) {
 			return nil, errors.New("provide limit after LIMIT keyword")
 		}
+		if limitIdx != len(params.Command)-1 {
+			// The limit is the last argument of the command.
+			return nil, errors.New(constants.WrongArgsResponse)
+		}
 
 		if l, ok := internal.AdaptType(params.Command[limitIdx]).(int); !ok {
 			return nil, errors.New("limit must be an integer")
